@@ -385,3 +385,70 @@ def where(a, site=None):
     if site is None or site == 'entry':
         return a.body.where()
     return a.body.where(site[0], a.line_at(site))
+
+
+# ---------------------------------------------------------------------- suite parametricity
+SUITE_PARAMS = {'A': 'aead::Aead', 'Kdf': 'kdf::Kdf', 'Kem': 'kem::Kem'}
+# dependency types the local implementors are built from (a concrete hash / cipher named in generic code is the same slip)
+_SUITE_DEP_TYPES = {
+    'Kdf': ('sha2::Sha256', 'sha2::Sha384', 'sha2::Sha512', 'sha2::Sha224', 'sha2::Sha512_256'),
+    'A': ('aes_gcm::Aes128Gcm', 'aes_gcm::Aes256Gcm', 'chacha20poly1305::ChaCha20Poly1305', 'chacha20poly1305::XChaCha20Poly1305'),
+    'Kem': (),
+}
+
+
+def _strings(x):
+    if isinstance(x, str):
+        yield x
+    elif isinstance(x, dict):
+        for v in x.values():
+            yield from _strings(v)
+    elif isinstance(x, (list, tuple)):
+        for v in x:
+            yield from _strings(v)
+
+
+def body_generics(facts, body):
+    """generic parameter names in scope of a body (closures inherit their parent's)"""
+    b = body
+    for _ in range(8):
+        g = b.raw.get('generics')
+        if g is not None:
+            return [x for x in g if not x.startswith("'")]
+        par = b.raw.get('parent')
+        b = facts.body(par) if par else None
+        if b is None:
+            break
+    return []
+
+
+def check_suite_parametric(rep, facts, rule, scope=None, floor=None, what='suite-generic bodies'):
+    """Every body that is generic over an algorithm parameter (A: Aead, Kdf: Kdf, Kem: Kem) is parametric in it: no type
+    mentioned in the body (locals, call generic arguments, self types, constants) is a *concrete* implementor of the
+    same trait. A block-level `type Kdf = HkdfSha256;` shadows the parameter without changing one token of the calls."""
+    import re
+    n = 0
+    concrete = {}
+    for p, tr in SUITE_PARAMS.items():
+        names = [im['self_ty'] for im in facts.impls_of(tr) if not im.get('generic')]
+        concrete[p] = sorted(set(names) | set(_SUITE_DEP_TYPES[p]))
+    pats = {p: [(c, re.compile(r'(?<![\w:])' + re.escape(c) + r'(?![\w])')) for c in cs] for p, cs in concrete.items()}
+    for b in facts.body_list:
+        if scope is not None and not scope(b):
+            continue
+        gs = [g for g in body_generics(facts, b) if g in SUITE_PARAMS]
+        if not gs:
+            continue
+        n += 1
+        text = list(_strings({'l': b.raw.get('locals'), 'b': b.raw.get('blocks'), 's': b.raw.get('sig'), 'p': b.raw.get('promoted')}))
+        hits = []
+        for g in gs:
+            for c, rx in pats[g]:
+                if any(rx.search(s) for s in text):
+                    hits.append('%s := %s' % (g, c))
+        a = get_an(facts, b.key)
+        rep.check(not hits, rule, b.key, 'parametric', 'generic over %s; concrete algorithm types mentioned: %s' % (gs, hits or 'none'),
+                  'code generic over A/Kdf/Kem names no concrete Aead/Kdf/Kem implementor (the caller\'s suite is passed through)', where(a))
+    if floor is not None:
+        rep.floor(rule, what, n, floor)
+    return n
